@@ -1602,6 +1602,11 @@ class PyFlow:
                 base_: ast.expr = ast.Name(id=ra_[1].split(".")[0], ctx=ast.Load())
                 for part_ in ra_[1].split(".")[1:]:
                     base_ = ast.Attribute(value=base_, attr=part_, ctx=ast.Load())
+                # inside an inlined method of that receiver it is spelled `self`
+                for sn_ in self.self_names:
+                    if sn_ in p.env and p.env[sn_] == alias_recv:
+                        base_ = ast.Name(id=sn_, ctx=ast.Load())
+                        break
                 syn = ast.copy_location(ast.Call(func=ast.Attribute(value=base_, attr=alias_name, ctx=ast.Load()), args=e.args, keywords=e.keywords), e)
                 ast.fix_missing_locations(syn)
                 if self.resolve(syn, p) is not None:
